@@ -70,4 +70,17 @@ static int V##_at(int i) \
   __CPROVER_assert(0 <= i && i < V##_n, "std::vector index within size()"); \
   return i; \
 }
+/* same, with a reference body for push_back (used where the call is inlined instead of replaced by the contract) */
+#define VVEC_DECLARE_WITH_BODY(V) \
+int V##_p[VMAXV]; int V##_n; \
+void V##_push(int x) \
+__CPROVER_requires(0 <= V##_n && V##_n < VMAXV) \
+__CPROVER_assigns(V##_n, V##_p[V##_n]) \
+__CPROVER_ensures(V##_n == __CPROVER_old(V##_n) + 1 && V##_p[__CPROVER_old(V##_n)] == x) \
+{ V##_p[V##_n] = x; V##_n = V##_n + 1; } \
+static int V##_at(int i) \
+{ \
+  __CPROVER_assert(0 <= i && i < V##_n, "std::vector index within size()"); \
+  return i; \
+}
 #endif
